@@ -329,6 +329,20 @@ func includeGraphs(c *fw.Ctx, sampled int, emit emitFn) {
 		}
 		emit("include-graph-sampled", &proto.Job{ID: fmt.Sprintf("igs-%d", s), Root: "f0.jst", Files: files})
 	}
+	// acyclic graphs that fan out: a chain of n files each of which includes the next one k times is followed k^n times
+	for _, nk := range [][2]int{{10, 2}, {17, 2}, {24, 2}, {40, 2}, {64, 2}, {12, 3}, {30, 3}, {8, 8}, {20, 16}, {3, 100}} {
+		n, k := nk[0], nk[1]
+		files := map[string][]byte{"root.jst": []byte("JSIGHT 0.3\n" + strings.Repeat("INCLUDE f0.jst\n", k))}
+		for i := 0; i < n; i++ {
+			body := strings.Repeat(fmt.Sprintf("INCLUDE f%d.jst\n", i+1), k)
+			if n == 12 && i%2 == 1 {
+				body = fmt.Sprintf("TYPE @t%d any\n", i) + body // (a second inclusion then repeats a declaration: an error, but one that must come)
+			}
+			files[fmt.Sprintf("f%d.jst", i)] = []byte(body)
+		}
+		files[fmt.Sprintf("f%d.jst", n)] = []byte("# leaf\n")
+		emit("include-fanout", &proto.Job{ID: fmt.Sprintf("ifan-%d-%d", n, k), Root: "root.jst", Files: files})
+	}
 	targets := []string{"missing.jst", "d", "d/", "\"\"", "/etc/passwd", "..", ".", "../x.jst", "./b.jst", "a\\b.jst", "b.jst extra",
 		"b.jst // note", "b.jst\n{}", "b.jst (", "\"b.jst\"", "\"b.jst", "", "b.jst b.jst", "sub/c.jst", "sub", "~", "%2e%2e/x",
 		"b.jst\n(\n)", "b.jst #c", "d/../b.jst", "b.jst/", "\x00", "\xff.jst", strings.Repeat("a", 300), strings.Repeat("d/", 200) + "x"}
